@@ -948,10 +948,25 @@ def repr_class(s):
 
 
 def broadcast_check(lat, pairs):
+    """all N given pairs at once, then the first 3, 2, 1 of them (N = 3 is the shape a single vector also has along
+    its first axis), as arrays and as lists of lists"""
+    sizes = [len(pairs)] + [k for k in (3, 2, 1) if k < len(pairs)]
+    for k in sizes:
+        for aslist in (False, True):
+            bad = _broadcast_check_n(lat, pairs[:k], aslist)
+            if bad:
+                return ("%s [N=%d%s]" % (bad[0], k, ", lists" if aslist else ""),) + tuple(bad[1:])
+    return None
+
+
+def _broadcast_check_n(lat, pairs, aslist=False):
     import numpy as np
 
     U = np.array([p[0] for p in pairs], dtype=float)
     V = np.array([p[1] for p in pairs], dtype=float)
+    if aslist:
+        U0, V0 = U, V
+        U, V = U0.tolist(), V0.tolist()
     u0 = pairs[0][0]
     n = len(pairs)
 
